@@ -227,6 +227,8 @@ def check_dispatch(ctx):
         shape.match(ctx, "R12.3", q + ":classical-pure", ret_expr(gens[0].body), "CQMap(F(box.dom), F(box.cod), box.array)", N, mod=CQ, node=gens[0], sig="classical-pure")
         shape.match(ctx, "R12.3", q + ":quantum-pure", ret_expr(gens[1].body), "CQMap.pure(Tensor(F(box.dom).quantum, F(box.cod).quantum, box.array))", N, body=gens[1].body, mod=CQ,
                     node=gens[1], sig="quantum-pure", required="pure quantum boxes are doubled")
+        shape.match(ctx, "R12.3", q + ":mixed-array", ret_expr(gens[2].body), "CQMap(F(box.dom), F(box.cod), box.array)", N, mod=CQ, node=gens[2], sig="mixed-array",
+                    required="a mixed box with an array is the classical-quantum map with that array, typed by the images of its domain and codomain")
     # _ar is the `ar` mapping of the functor: the dagger flag of a box is handled by cat.Functor.__call__ before the lookup (C04 R04.3)
     init = m.func(CQ + ".Functor.__init__")
     sup = next((c for c in ast.walk(init) if isinstance(c, ast.Call) and ast.unparse(c.func) == "super().__init__"), None)
